@@ -12,7 +12,8 @@
  * canonical output: `begin n`, `poll n block|now` (what timeout backend handed to the poller), the LPC lines of
  * harness/mudlib/c12/user.c (logon/cmd/ecmd/kick/drop/force/gc/it), echoed `send`/`close` lines for actions that
  * were really performed, and `end n max=<max_users> <slot>:<user>:<iflags & (HAS_CMD_TURN|CMD_IN_BUF|SINGLE_CHAR)>...` after
- * every cycle.
+ * every cycle.  An iteration left by an uncaught LPC error (script op `err`) never reaches the hook: it is seen through
+ * the second poll of the hook period and logged as `abort n` followed by `begin n+1`.
  *
  * libc interposition: bind() -> ephemeral port (parallel checks must not collide);
  *                     epoll_wait() -> records whether backend asked to block, then polls with timeout 0.
@@ -39,6 +40,7 @@ static int nlines = 0, curline = 0;
 static int cycle_no = 0;
 static int port = 0;
 static int in_cycle = 0;
+static int polled = 0;		/* backend() has polled in the running iteration */
 
 static int cfd[MAXCL];		/* client socket of u<k>, -1 = closed / never opened */
 static interactive_t *cip[MAXCL];	/* server side of u<k> once accepted */
@@ -62,7 +64,18 @@ int bind (int fd, const struct sockaddr *addr, socklen_t len)
 int epoll_wait (int epfd, struct epoll_event *ev, int maxev, int timeout)
 {
   if (in_cycle)
-    vh_out ("poll %d %s", cycle_no, timeout == 0 ? "now" : "block");
+    {
+      if (polled)
+        {
+          /* a second poll without the hook in between: the previous iteration was left by longjmp (uncaught
+           * error in a command) and the while(1) loop of backend() has restarted */
+          vh_out ("abort %d", cycle_no);
+          cycle_no++;
+          vh_out ("begin %d", cycle_no);
+        }
+      polled = 1;
+      vh_out ("poll %d %s", cycle_no, timeout == 0 ? "now" : "block");
+    }
   return (int) syscall (SYS_epoll_pwait, epfd, ev, maxev, 0, (void *) 0, (size_t) 8);
 }
 
@@ -253,6 +266,7 @@ static int hook (void)
           drain_clients ();
           cycle_no++;
           in_cycle = 1;
+          polled = 0;
           vh_out ("begin %d", cycle_no);
           return 0;
         }
